@@ -82,7 +82,7 @@ func (m *Exporter) GenFaults(w *engine.World, r *engine.Rand) []engine.Fault {
 
 // Epilogue: one more export at the very end of every history (as is).
 func (m *Exporter) Final(w *engine.World) {
-	if w.Node == nil || w.Height < 2 {
+	if w.Node == nil || w.Height < w.Base()+2 {
 		return
 	}
 	m.roundTrip(w, false, "final")
